@@ -44,7 +44,7 @@ type Case struct {
 	Streams []ops.Hex `json:"streams"` // generated graphics shared by all goroutines
 }
 
-var jobKinds = []string{"render", "transcode", "disassemble", "viewbox", "generate", "resolve", "aspect", "color1", "options", "pathdata", "recorder", "zeroenc", "validate"}
+var jobKinds = []string{"render", "transcode", "disassemble", "viewbox", "generate", "resolve", "aspect", "color1", "options", "pathdata", "recorder", "zeroenc", "validate", "keepmeta", "reuseenc", "reuseenc"}
 
 // shared state: one palette array read by everybody
 var sharedPalette = func() [64]color.RGBA {
@@ -73,9 +73,59 @@ func hash(parts ...[]byte) uint64 {
 
 // runJob performs one job on private destination objects over shared inputs
 // and returns a digest of its result.
-func runJob(j Job, inputs [][]byte) uint64 {
+// worker: what one goroutine (one pipeline) keeps between its jobs. Reusing one's own objects
+// sequentially is ordinary; they are never shared with another goroutine.
+type worker struct {
+	enc encode.Encoder
+}
+
+// sharedValidPalette: a premultiplied suggested palette that several Encoders are Reset with.
+var sharedValidPalette = func() [64]color.RGBA {
+	p := ivg.DefaultPalette
+	for i := 0; i < 20; i++ {
+		a := uint8(255 - 9*i)
+		p[i] = color.RGBA{uint8(i * 3), uint8(int(a) * i / 20), a / 2, a}
+	}
+	return p
+}()
+
+func runJob(w *worker, j Job, inputs [][]byte) uint64 {
 	in := inputs[j.Input%len(inputs)]
 	switch j.Kind {
+	case "keepmeta":
+		// the caller keeps the metadata it was handed (the only way to learn the decoded palette
+		// without a Destination) and reads it after Decode has returned
+		var kept *ivg.Metadata
+		err := decode.Decode(nil, in, func(m *ivg.Metadata) { kept = m })
+		if kept == nil {
+			return hash([]byte(fmt.Sprint(err)))
+		}
+		runtime.Gosched()
+		return hash([]byte(fmt.Sprint(*kept, err)))
+	case "reuseenc":
+		// the goroutine's own Encoder, Reset for graphic after graphic: a large one with the default
+		// metadata, small ones with a suggested palette that other goroutines' Encoders use too
+		e := &w.enc
+		n := 2
+		switch j.Param % 3 {
+		case 0:
+			e.Reset(ivg.DefaultViewBox, sharedValidPalette)
+		case 1:
+			e.Reset(ivg.DefaultViewBox, ivg.DefaultPalette)
+			n = 40 + j.Param%50
+		default:
+			e.Reset(ivg.ViewBox{MinX: -24, MinY: -24, MaxX: 24, MaxY: 24}, sharedValidPalette)
+			n = 5
+		}
+		e.SetCReg(0, false, ivg.PaletteIndexColor(uint8(j.Param)))
+		e.StartPath(0, float32(j.Param%20), 1)
+		for i := 0; i < n; i++ {
+			e.AbsLineTo(float32((i*7+j.Param)%50)-25, float32(i%13))
+			e.RelSmoothQuadTo(1, float32(i%5))
+		}
+		e.ClosePathEndPath()
+		b, err := e.Bytes()
+		return hash(b, []byte(fmt.Sprint(err)))
 	case "render":
 		w := 16 + j.Param%48
 		img := image.NewRGBA(image.Rect(0, 0, w+4, w+2))
@@ -237,8 +287,9 @@ func checkConcurrent(c Case) error {
 		go func(g int, list []Job) {
 			defer wg.Done()
 			<-start
+			var w worker
 			for i, j := range list {
-				got[g][i] = runJob(j, inputs)
+				got[g][i] = runJob(&w, j, inputs)
 			}
 		}(g, list)
 	}
@@ -251,8 +302,9 @@ func checkConcurrent(c Case) error {
 	want := make([][]uint64, len(c.Lists))
 	for g, list := range c.Lists {
 		want[g] = make([]uint64, len(list))
+		var w worker
 		for i, j := range list {
-			want[g][i] = runJob(j, inputs)
+			want[g][i] = runJob(&w, j, inputs)
 		}
 	}
 	if raceLogSize() > before {
@@ -282,7 +334,7 @@ func checkConcurrent(c Case) error {
 	return nil
 }
 
-var subConc = harness.Define("concurrent", "N in {2,4,8,16,32} goroutines x GOMAXPROCS in {2,4,16}, each running a generated list of independent jobs (Decode->Renderer->raster/vec, Decode->Encoder, Disassemble, DecodeViewBox, Generator->Encoder, Color.Resolve, AspectMeet/Slice, DecodeColor1, Decode with palette options, Decode without a Destination and an option that looks at the metadata, ParsePathData, Decode->recorder, zero-value Encoder); the concurrent phase runs before the serial reference, so the first case of every process meets the packages cold over shared corpus graphics, generated streams, one shared palette and the package-level defaults, built with -race: no race report, every result equals the serial result, shared inputs and package variables unchanged; non-trivial = at least two goroutines share an input", checkConcurrent)
+var subConc = harness.Define("concurrent", "N in {2,4,8,16,32} goroutines x GOMAXPROCS in {2,4,16}, each running a generated list of independent jobs (Decode->Renderer->raster/vec, Decode->Encoder, Disassemble, DecodeViewBox, Generator->Encoder, Color.Resolve, AspectMeet/Slice, DecodeColor1, Decode with palette options, Decode without a Destination and an option that looks at the metadata, ParsePathData, Decode->recorder, zero-value Encoder, the goroutine's own Encoder Reset for graphic after graphic with metadata other goroutines use too, a caller keeping the metadata handed to its option); the concurrent phase runs before the serial reference, so the first case of every process meets the packages cold over shared corpus graphics, generated streams, one shared palette and the package-level defaults, built with -race: no race report, every result equals the serial result, shared inputs and package variables unchanged; non-trivial = at least two goroutines share an input", checkConcurrent)
 
 func TestConcurrent(t *testing.T) {
 	all := corpus.All()
